@@ -1406,3 +1406,34 @@ package yqlib
 //@     invariant @asked-so-far {C01} implies(expressionNode != nil, calls(GetMatchingNodes) == rangeidx())
 //@     invariant @none-so-far {C01} implies(expressionNode == nil, forall(i, 0, rangeidx(), truthyNode(sequenceNode.Content[i]) != wantBool))
 //@     invariant sequenceNode.Content == old(sequenceNode.Content) && forall(i, 0, len(sequenceNode.Content), sequenceNode.Content[i] != nil)
+
+// ---------------------------------------------------------------------------------------------
+// operator_entries.go: to_entries enumerates positions / keys (C16)
+
+//@ func (*CandidateNode).CreateReplacementWithComments
+//@   props C16 C11
+//@   requires n != nil
+//@   ensures result != nil && fresh(result) && result.Kind == kind && result.Tag == tag && len(result.Content) == 0 && result.Parent == n.Parent
+
+//@ func entrySeqFor
+//@   props C16 C11
+//@   requires key != nil && value != nil
+//@   ensures @a-map-of-key-and-value {C16} result != nil && fresh(result) && result.Kind == MappingNode && len(result.Content) == 4 && result.Content[0].Value == "key" && result.Content[2].Value == "value" && sameScalarAttrs(result.Content[1], key) && sameScalarAttrs(result.Content[3], value)
+
+//@ func toEntriesfromSeq
+//@   props C16 C11
+//@   requires candidateNode != nil
+//@   assume @children-non-nil forall(i, 0, len(candidateNode.Content), candidateNode.Content[i] != nil)
+//@   at entrySeqFor: assert @entry-key-is-the-position {C16} arg0 != nil && arg0.Kind == ScalarNode && arg0.Tag == "!!int" && arg0.Value == itoa(index) && arg1 == contents[index]
+//@   ensures @one-entry-per-element {C16} result != nil && fresh(result) && result.Kind == SequenceNode && len(result.Content) == len(candidateNode.Content)
+//@   loop 1:
+//@     invariant 0 <= index && index <= len(contents) && sequence != nil && fresh(sequence) && len(sequence.Content) == index && sequence.Kind == SequenceNode && contents == candidateNode.Content && candidateNode.Content == old(candidateNode.Content) && forall(i, 0, len(contents), contents[i] != nil)
+
+//@ func toEntriesFromMap
+//@   props C16 C11
+//@   requires candidateNode != nil
+//@   assume @children-non-nil forall(i, 0, len(candidateNode.Content), candidateNode.Content[i] != nil) && len(candidateNode.Content) % 2 == 0
+//@   at entrySeqFor: assert @entry-is-the-pair {C16} arg0 == contents[index] && arg1 == contents[index+1]
+//@   ensures @one-entry-per-pair {C16} result != nil && fresh(result) && result.Kind == SequenceNode && 2 * len(result.Content) == len(candidateNode.Content)
+//@   loop 1:
+//@     invariant 0 <= index && index <= len(contents) && index % 2 == 0 && sequence != nil && fresh(sequence) && 2 * len(sequence.Content) == index && sequence.Kind == SequenceNode && contents == candidateNode.Content && candidateNode.Content == old(candidateNode.Content) && forall(i, 0, len(contents), contents[i] != nil) && len(contents) % 2 == 0
